@@ -717,6 +717,14 @@ def r_trigger(doc, op):
   allc = _cols(doc, t['id'])
   deps = [x['id'] for x in _mask_pick(allc, op['t'])]
   when = int(op['c']) % 3
+  trig = [x for x in cols if x['formula']]
+  if trig and int(op['c']) % 2:
+    # settings-only change of an existing trigger column (what the column's side panel sends): drop or shrink its
+    # dependencies, or switch when it recalculates
+    x = trig[int(op['b']) % len(trig)]
+    upd = [{'recalcDeps': None}, {'recalcWhen': 1}, {'recalcDeps': (['L'] + deps[:1]) if deps else None},
+           {'recalcWhen': 2}, {'recalcWhen': 0, 'recalcDeps': (['L'] + deps) if deps else None}][int(op['a']) % 5]
+    return ['UpdateRecord', '_grist_Tables_column', x['id'], upd]
   f = list(op['f'])
   if int(op['a']) % 3 == 0:
     f = [42 + int(op['b']) % 2] + f[1:]      # a trigger formula that swallows exceptions (IFERROR)
